@@ -212,6 +212,15 @@ static int cmd_serve()
 
 int main(int argc, char **argv)
 {
+#ifndef __SANITIZE_ADDRESS__
+    // glibc fills freed (and fresh) memory with a byte pattern: a use after free inside an
+    // uninstrumented library (Qt) then misbehaves the same way in every process, instead of
+    // depending on what the heap happens to hold
+    if (!getenv("MALLOC_PERTURB_")) {
+        setenv("MALLOC_PERTURB_", "165", 1);
+        execv("/proc/self/exe", argv);
+    }
+#endif
     sim::init_env();
     if (argc < 2)
         return 2;
